@@ -83,6 +83,9 @@ let () =
     let n = node_of (Sexp.parse (String.concat " " a)) in
     let ts = (match n with NPrint _ -> tokens_of_print n | _ -> tokens_of n) in
     List.concat_map (fun t -> [n_s t.t_typ; hex_of_bstr t.t_val]) ts);
+  (* c17_kw_clause <sexp>: the keyword clause of lexical well-formedness (Spec/LexKeyword.v) *)
+  register "c17_kw_clause" (fun a ->
+    [bool_s (c17_kw_clause (node_of (Sexp.parse (String.concat " " a))))]);
   register "parse_float" (fun a ->
     match a with
     | [s] -> (match parse_float (bstr_of_hex s) with Some f -> ["some"; Sexp.to_string (fl_to f)] | None -> ["none"])
